@@ -273,8 +273,11 @@ def check_pit_token(ctx, rng):
         got = {}
 
         def h(n, p, reply, c):
-            got[tuple(bytes(x) for x in n)] = (reply, c)
-        the_app.attach_handler([C(b't')], h)
+            got[tuple(bytes(x) for x in n)[:2]] = (reply, c)
+
+        async def accept(n, s_, c):
+            return types.ValidResult.PASS
+        the_app.attach_handler([C(b't')], h, accept)
         seq = 0
         lib_logger = logging.getLogger('ndn')
         lib_logger.addHandler(logging.NullHandler())
@@ -294,7 +297,14 @@ def check_pit_token(ctx, rng):
                 token = None if tk < 0.2 else b'' if tk < 0.3 else bytes(rng.choice([1, 4, 8, 32, 33, 40])) if tk < 0.4 else \
                     gen.rand_bytes(rng, rng.choice([1, 2, 4, 8, 16, 32, 33, 40]))
                 L = rng.choice([50, 100, 4000])
-                iw = bytes(make_interest(name, InterestParam(nonce=seq, lifetime=L)))
+                kind_i = rng.choice(['plain', 'plain', 'parameterised', 'signed'])
+                if kind_i == 'plain':
+                    iw = bytes(make_interest(name, InterestParam(nonce=seq, lifetime=L)))
+                else:
+                    # the token rule holds for every Interest, also one that goes through the digest check and the validator first
+                    iw = bytes(make_interest(name, InterestParam(nonce=seq, lifetime=L), b'app-param',
+                                             DigestSha256Signer(for_interest=True) if kind_i == 'signed' else None))
+                ctx.klass('token-interest-' + kind_i)
                 hs = header_set(rng)
                 wire = iw if token is None and rng.random() < 0.5 else rc.make_lp(fragment=iw, pit_token=token, headers=hs)
                 await face.deliver(wire)
@@ -361,6 +371,8 @@ def run(ctx):
     for k in ('twin-delivery-with-effect', 'nack-delivered', 'token-reply', 'fragmented-envelope', 'nack-with-cancel-in-same-turn', 'token-round-debug-logging'):
         ctx.need_event(k)
     ctx.need_class('reply-size->=2048')
+    ctx.need_class('token-interest-signed')
+    ctx.need_class('token-interest-parameterised')
     ctx.assumptions = ['envelope headers are generated in ascending type order before the fragment',
                        'a Nack header without a reason is outside the statement (observation only, see C06)',
                        'PIT-token rules are judged on the current front-end; the legacy one documents no PIT-token support']
